@@ -2,6 +2,7 @@ package compiler
 
 import (
 	"fmt"
+	"sort"
 
 	"github.com/grafana/cog/internal/ast"
 )
@@ -119,8 +120,17 @@ func (pass *DisjunctionInferMapping) inferDiscriminatorField(schema *ast.Schema,
 	for typeName := range candidates {
 		allTypes = append(allTypes, typeName)
 	}
+	sort.Strings(allTypes)
 
+	// candidate fields are examined in a fixed (sorted) order: when several
+	// fields qualify, the choice must not depend on map iteration order.
+	candidateFieldNames := make([]string, 0, len(candidates[someType]))
 	for candidateFieldName := range candidates[someType] {
+		candidateFieldNames = append(candidateFieldNames, candidateFieldName)
+	}
+	sort.Strings(candidateFieldNames)
+
+	for _, candidateFieldName := range candidateFieldNames {
 		existsInAllBranches := true
 		for _, branchTypeName := range allTypes {
 			if _, ok := candidates[branchTypeName][candidateFieldName]; !ok {
